@@ -328,9 +328,11 @@ Proof.
     + destruct (is_finding (klass f' P fr')) eqn:Hfi.
       { exfalso. eapply is_finding_0; eauto. }
       destruct (resolve_frame f' P fr') as [R'|] eqn:Hr; [|discriminate].
-      destruct (existsb (fun n => mem_str n given) (pg_names (f_body (fr_fn fr)))) eqn:H3; [discriminate|].
+      destruct (existsb (fun n => mem_str n given && negb (mem_str n pre))
+                        (pg_names (f_body (fr_fn fr)))) eqn:H3'; [discriminate|].
       destruct (forallb (fun n => mem_str n pre || mem_str n (names (remove_given npos given R')))
                         (pg_names (f_body (fr_fn fr)))) eqn:H1; cbn [negb] in H; [|discriminate].
+      destruct (existsb (fun n => mem_str n given) (pg_names (f_body (fr_fn fr)))) eqn:H3; [discriminate|].
       destruct (N.eqb (klass f' P fr') 0) eqn:Hk0; cbn [negb] in H.
       2:{ apply N.eqb_neq in Hk0. contradiction. }
       apply N.eqb_eq in Hk0. split; [exact Hk0|]. exists R'. split; [reflexivity|].
